@@ -97,6 +97,45 @@ C05_UpgradeDead ==       \* once no strong handle is left, no strong handle ever
 C05 == C05_KeepAlive /\ C05_DrainOnDrop /\ C05_UpgradeDead
 
 -----------------------------------------------------------------------------
+(* C06 failure of one actor is contained and visible as errors, never as hangs *)
+C06_Visible ==           \* a failed actor: awaiting yields an error, join yields None, mailbox gone
+  \A a \in Used : act[a].pc = "failed" =>
+     /\ act[a].notif = "dropped" /\ act[a].result = "err" /\ act[a].rx = "closed" /\ act[a].mq = <<>>
+     /\ \A i \in DOMAIN tmr : tmr[i].a = a => tmr[i].st \in {"aborted", "ended"}
+C06_NoGhostAnswers ==    \* no call answered Ok for a message whose handler did not finish
+  \A a \in Used : \A m \in hst.okcall : m \in hst.acc[a] => m \in HeSet(a)
+C06_OnlyOwnFault ==      \* an actor fails only through its own fault (own script, own timeout, own task cancelled)
+  \A a \in Used : act[a].pc = "failed" => act[a].why \in {"startErr", "panic", "timeout", "cancel"}
+C06 == C06_Visible /\ C06_NoGhostAnswers /\ C06_OnlyOwnFault /\ C02_Resolves
+
+-----------------------------------------------------------------------------
+(* C07 restart keeps identity and mailbox, fresh incarnation *)
+C07_IncMonotone ==       \* messages before / after the request are handled by the incarnation before / after it
+  \A a \in Used : \A i, j \in 1..Len(hst.hb[a]) : i < j => hst.hb[a][i].inc <= hst.hb[a][j].inc
+Sb(a) == {i \in 1..Len(hst.cb[a]) : hst.cb[a][i][1] = "sb"}
+C07_Identity ==          \* default strategy: same value; recreate: a fresh Default value; started after stopped
+  \A a \in Used : \A i \in Sb(a) : i > 1 =>
+     /\ hst.cb[a][i - 1][1] = "pe" /\ hst.cb[a][i][2] = hst.cb[a][i - 1][2] + 1
+     /\ (act[a].strat = "recreate") <=> (hst.cb[a][i][3] # hst.cb[a][i - 1][3])
+C07_NoneIgnores == \A a \in Used : (act[a].strat = "none" /\ ~act[a].stream) => (act[a].inc = 0 /\ Cardinality(Sb(a)) <= 1)
+C07_FreshTimers ==       \* timers registered by an earlier incarnation no longer fire
+  \A i \in DOMAIN tmr : tmr[i].st \in {"sleeping", "firing", "parked"} => tmr[i].inc = act[tmr[i].a].inc \/ act[tmr[i].a].pc \in {"rs_stopped", "rs_mid"}
+C07 == C07_IncMonotone /\ C07_Identity /\ C07_NoneIgnores /\ C07_FreshTimers /\ C01_RealTimeFIFO /\ C01_AtMostOnce
+
+-----------------------------------------------------------------------------
+(* C11 handler timeouts abandon exactly the invocations that exceed the limit *)
+C11_OnlyLate ==          \* abandoned only at or after the limit, never without a configured timeout
+  \A a \in Used : /\ ((act[a].tmo = 0 \/ act[a].stream) => (\A y \in hst.abt : y[1] # a))
+                   /\ (\A x \in hst.abt : x[1] = a => x[4] >= x[3] + act[a].tmo)
+C11_NoEffects ==         \* an abandoned invocation answers nobody and leaves no trace in the state
+  \A a \in Used : \A x \in hst.abt : x[1] = a => (x[2] \notin HeSet(a) /\ x[2] \notin hst.okcall)
+C11_InTime ==            \* an invocation that ended before its limit was never abandoned (ended and abandoned are disjoint)
+  \A a \in Used : \A x \in hst.abt : x[1] = a => \A i \in 1..Len(act[a].st) : act[a].st[i] # x[2]
+C11_ThenNextOrFail ==    \* afterwards: carries on (default) or terminates as failed (fail_on_timeout)
+  \A a \in Used : (act[a].why = "timeout") <=> (act[a].pc = "failed" /\ act[a].failto /\ \E x \in hst.abt : x[1] = a)
+C11 == C11_OnlyLate /\ C11_NoEffects /\ C11_InTime /\ C11_ThenNextOrFail
+
+-----------------------------------------------------------------------------
 (* C12 bounded mailbox backpressure *)
 
 C12_Bound ==
